@@ -6,6 +6,9 @@ package corr
 // table.  What a list MEANS for an interceptor (bound or passed through) is decided by the model, never here.
 
 import (
+	"fmt"
+	"strings"
+
 	"github.com/pion/interceptor"
 )
 
@@ -64,4 +67,278 @@ func genFeedbackCode(r *Rng, plain bool) int {
 		code = code*10 + d
 	}
 	return code
+}
+
+// ---------------------------------------------------------------------------------------------------------------
+// The APPLICATION of a case (`app` op).  The StreamInfo, the option list and the feedback list an application passes
+// are the application's: the interface (interceptor.go: "BindLocalStream … is called once per LocalStream",
+// "UnbindLocalStream is called when the Stream is removed"; every implementation keys its per-stream state by
+// info.SSRC) fixes what an interceptor may conclude from them, and nothing else.  A case may carry, as its first op
+// (after `amb`, which the framework strips),
+//
+//	app seed=<n> unbind=<shapes> after=<habits> fb=<rewrites> opts=1
+//
+// which every adopting interpreter strips (appOf) and the Lean side ignores (Driver/Util.lean, runLines), exactly
+// like `amb`: the model's outputs must not depend on it.  All four are cyclic schedules / switches:
+//
+//	unbind=  the StreamInfo handed to Unbind*Stream for a bound stream — `same` the very object handed to Bind*,
+//	         `copy` an equal value at another address, `ssrc` a value rebuilt from the SSRC alone, `nofb` / `noext` a
+//	         copy whose RTCPFeedback / RTPHeaderExtensions list is gone, `reneg` a value in which everything except
+//	         the SSRC was renegotiated, `edited` the very object handed to Bind*, edited in place by that
+//	         renegotiation just before the call.  The stream is named by its SSRC: all of them unbind it.
+//	after=   what the application does with ITS StreamInfo object once Bind* has returned — `keep`, `scrub` (every
+//	         scalar and every element of both lists overwritten in place with other values: the object now describes
+//	         another stream, in the same memory), `refill` (the lists truncated and refilled in the same backing
+//	         arrays with another stream's entries, ids moved).  What the interceptor does for the bound stream was
+//	         decided by the values at Bind time.
+//	fb=      how the RTCPFeedback list of a Bind* is written down — `asis`, `rev`, `rot`, `dup` (an entry repeated),
+//	         `extras` (entries of unrelated capabilities — goog-remb, ccm fir, nack rpsi, near-duplicates of `nack` —
+//	         inserted at random places, never the two entries the library consults: {nack,""} and {nack,pli}).  The
+//	         same capabilities are negotiated whatever the order.
+//	opts=1   functional options that set different fields commute: the option list of a constructor is applied in a
+//	         seeded random order (appShuffle).
+//
+// A nil *App (no `app` op) is the application the harness had before: everything as written.
+type App struct {
+	Unbind, After, Fb []string
+	Opts              bool
+	rng               *Rng
+	nU, nA, nF        int
+}
+
+// appOf splits the `app` op off a case (it is the first op once the framework has taken `amb`).
+func appOf(ops []string) (*App, []string) {
+	if len(ops) == 0 || !strings.HasPrefix(ops[0], "app ") && ops[0] != "app" {
+		return nil, ops
+	}
+	_, m := kv(ops[0])
+	split := func(s string) []string {
+		if s == "" || s == "-" {
+			return nil
+		}
+		return strings.Split(s, ",")
+	}
+	seed := uint64(1)
+	if s, ok := m["seed"]; ok {
+		seed = uint64(atoi(s))
+	}
+	return &App{Unbind: split(m["unbind"]), After: split(m["after"]), Fb: split(m["fb"]), Opts: m["opts"] == "1",
+		rng: NewRng(seed*0x9E3779B97F4A7C15 + 0xA11)}, ops[1:]
+}
+
+func appNext(sched []string, n *int) string {
+	if len(sched) == 0 {
+		return ""
+	}
+	x := sched[*n%len(sched)]
+	*n++
+	return x
+}
+
+// copyInfo is a deep copy of a StreamInfo (lists in fresh arrays; nil stays nil; the Attributes bag is shared: it
+// is not part of the description).
+func copyInfo(info *interceptor.StreamInfo) *interceptor.StreamInfo {
+	if info == nil {
+		return nil
+	}
+	c := *info
+	if info.RTPHeaderExtensions != nil {
+		c.RTPHeaderExtensions = append(make([]interceptor.RTPHeaderExtension, 0, len(info.RTPHeaderExtensions)+2), info.RTPHeaderExtensions...)
+	}
+	if info.RTCPFeedback != nil {
+		c.RTCPFeedback = append(make([]interceptor.RTCPFeedback, 0, len(info.RTCPFeedback)+2), info.RTCPFeedback...)
+	}
+	return &c
+}
+
+// fbExtras: entries of capabilities no interceptor of the library consults, and near-duplicates of `nack`.
+var fbExtras = []interceptor.RTCPFeedback{
+	{Type: "goog-remb"}, {Type: "ccm", Parameter: "fir"}, {Type: "nack", Parameter: "rpsi"}, {Type: "nack", Parameter: "sli"},
+	{Type: "NACK"}, {Type: "", Parameter: "nack"}, {Type: "nack "}, {Type: "nack", Parameter: "PLI"}, {Type: "ccm", Parameter: "tmmbr"},
+}
+
+// renegInfo: the stream `ssrc` after a renegotiation that changed everything but the SSRC.
+func renegInfo(ssrc uint32) interceptor.StreamInfo {
+	return interceptor.StreamInfo{
+		SSRC: ssrc, ClockRate: 48000, PayloadType: 111, MimeType: "audio/opus", Channels: 2,
+		RTCPFeedback:        []interceptor.RTCPFeedback{{Type: "goog-remb"}},
+		RTPHeaderExtensions: []interceptor.RTPHeaderExtension{{URI: "urn:ietf:params:rtp-hdrext:sdes:mid", ID: 9}},
+	}
+}
+
+// unbindInfoAs: the StreamInfo an application hands to Unbind*Stream for the stream it bound with the description
+// `desc` (object handed to Bind*: `live`, may be nil when the harness did not keep it).  Only the SSRC names the
+// stream; everything else may be absent or renegotiated.
+func unbindInfoAs(desc, live *interceptor.StreamInfo, how string) *interceptor.StreamInfo {
+	switch how {
+	case "copy":
+		return copyInfo(desc)
+	case "ssrc":
+		return &interceptor.StreamInfo{SSRC: desc.SSRC}
+	case "nofb":
+		c := copyInfo(desc)
+		c.RTCPFeedback = nil
+		return c
+	case "noext":
+		c := copyInfo(desc)
+		c.RTPHeaderExtensions = nil
+		return c
+	case "reneg":
+		c := renegInfo(desc.SSRC)
+		return &c
+	case "edited":
+		if live == nil {
+			live = copyInfo(desc)
+		}
+		*live = renegInfo(desc.SSRC)
+		return live
+	}
+	if live != nil && live.SSRC == desc.SSRC { // `same` (an object scrubbed after Bind* names another stream by now)
+		return live
+	}
+	return copyInfo(desc)
+}
+
+// appUnbindShapes are the values of `unbind=`.
+// (`edited` — the object handed to Bind* edited in place — is understood by UnbindInfo but not generated: like
+// `after=scrub` it changes an object that the unchanged NACK responder and TWCC sender still read, DESIGN §8.)
+var appUnbindShapes = []string{"same", "copy", "ssrc", "nofb", "noext", "reneg"}
+
+// BindInfo is the object the application hands to Bind* for the stream described by `desc`: its own fresh value,
+// the feedback list written down as the schedule says.
+func (a *App) BindInfo(desc *interceptor.StreamInfo) *interceptor.StreamInfo {
+	live := copyInfo(desc)
+	if a == nil {
+		return live
+	}
+	fb := live.RTCPFeedback
+	switch appNext(a.Fb, &a.nF) {
+	case "rev":
+		for i, j := 0, len(fb)-1; i < j; i, j = i+1, j-1 {
+			fb[i], fb[j] = fb[j], fb[i]
+		}
+	case "rot":
+		if n := len(fb); n > 1 {
+			k := 1 + a.rng.Intn(n-1)
+			rot := append(append(make([]interceptor.RTCPFeedback, 0, n), fb[k:]...), fb[:k]...)
+			copy(fb, rot)
+		}
+	case "dup":
+		if n := len(fb); n > 0 {
+			e, at := fb[a.rng.Intn(n)], a.rng.Intn(n+1)
+			fb = append(fb[:at], append([]interceptor.RTCPFeedback{e}, fb[at:]...)...)
+		}
+	case "extras":
+		for k := 1 + a.rng.Intn(3); k > 0; k-- {
+			e, at := fbExtras[a.rng.Intn(len(fbExtras))], a.rng.Intn(len(fb)+1)
+			fb = append(fb[:at], append([]interceptor.RTCPFeedback{e}, fb[at:]...)...)
+		}
+	}
+	live.RTCPFeedback = fb
+	return live
+}
+
+// AfterBind: Bind* has returned; the application goes on using its own object.
+func (a *App) AfterBind(live *interceptor.StreamInfo) {
+	if a == nil || live == nil {
+		return
+	}
+	switch appNext(a.After, &a.nA) {
+	case "scrub":
+		live.ID, live.MimeType, live.SDPFmtpLine = "scrubbed", "application/scrubbed", "x=1"
+		live.SSRC ^= 0x5A5A5A5A
+		live.SSRCRetransmission, live.SSRCForwardErrorCorrection = live.SSRC+1, 0
+		live.PayloadType, live.PayloadTypeRetransmission, live.PayloadTypeForwardErrorCorrection = 0, 0, 0
+		live.ClockRate, live.Channels = 1, 7
+		for i := range live.RTCPFeedback {
+			live.RTCPFeedback[i] = interceptor.RTCPFeedback{Type: "scrubbed", Parameter: "scrubbed"}
+		}
+		for i := range live.RTPHeaderExtensions {
+			e := &live.RTPHeaderExtensions[i]
+			e.ID, e.URI = e.ID%14+1, "urn:scrubbed:"+e.URI
+		}
+		// the same memory now describes the next stream: the URIs back in place, every id moved
+		for i := range live.RTPHeaderExtensions {
+			e := &live.RTPHeaderExtensions[i]
+			e.URI = strings.TrimPrefix(e.URI, "urn:scrubbed:")
+		}
+	case "refill":
+		other := renegInfo(live.SSRC + 1)
+		exts, fbs := live.RTPHeaderExtensions, live.RTCPFeedback
+		for i := range exts { // ids rotate among the declared URIs, then another stream's entries go on top
+			exts[i].ID = exts[(i+1)%len(exts)].ID%14 + 1
+		}
+		*live = other
+		if exts != nil {
+			live.RTPHeaderExtensions = append(exts[:0], other.RTPHeaderExtensions...)
+		}
+		if fbs != nil {
+			live.RTCPFeedback = append(fbs[:0], other.RTCPFeedback...)
+		}
+	}
+}
+
+// UnbindInfo: the value the application hands to Unbind*Stream for the stream it bound as `desc` (with the object
+// `live`), by the case's schedule.
+func (a *App) UnbindInfo(desc, live *interceptor.StreamInfo) *interceptor.StreamInfo {
+	if a == nil {
+		return unbindInfoAs(desc, live, "same")
+	}
+	return unbindInfoAs(desc, live, appNext(a.Unbind, &a.nU))
+}
+
+// appShuffle: the option list of a constructor in the order the application happens to write it.
+func appShuffle[T any](a *App, opts []T) []T {
+	if a == nil || !a.Opts {
+		return opts
+	}
+	out := append([]T(nil), opts...)
+	for i := len(out) - 1; i > 0; i-- {
+		j := a.rng.Intn(i + 1)
+		out[i], out[j] = out[j], out[i]
+	}
+	return out
+}
+
+// genApp draws an `app` op: each habit is present with the given chance out of 4 (0 = never, 4 = always).
+func genApp(r *Rng, unbind, after, fb, opts int) string {
+	op := fmt.Sprintf("app seed=%d", r.Range(1, 1<<30))
+	sched := func(all []string) string {
+		n := r.Range(1, 4)
+		xs := make([]string, n)
+		for i := range xs {
+			xs[i] = all[r.Intn(len(all))]
+		}
+		return strings.Join(xs, ",")
+	}
+	if r.Chance(unbind, 4) {
+		op += " unbind=" + sched(appUnbindShapes)
+	}
+	if r.Chance(after, 4) {
+		// only `keep` is generated: whether the application may edit the StreamInfo it passed to Bind* while the stream
+		// is bound is not stated by the interface or by any property (the unchanged NACK responder and TWCC sender
+		// read the caller's object at every packet: DESIGN §8). `scrub` / `refill` stay available for replays.
+		op += " after=" + sched([]string{"keep"})
+	}
+	if r.Chance(fb, 4) {
+		op += " fb=" + sched([]string{"rev", "rot", "dup", "extras", "extras", "asis"})
+	}
+	if r.Chance(opts, 4) {
+		op += " opts=1"
+	}
+	return op
+}
+
+// withApp puts an `app` op in front of a case's ops, behind an `amb` op if the case starts with one.
+func withApp(ops []string, app string) []string {
+	if app == "" {
+		return ops
+	}
+	at := 0
+	if len(ops) > 0 && strings.HasPrefix(ops[0], "amb ") {
+		at = 1
+	}
+	out := append([]string(nil), ops[:at]...)
+	out = append(out, app)
+	return append(out, ops[at:]...)
 }
